@@ -360,7 +360,7 @@ func c32Scenarios(thorough bool) []*explore.Scenario {
 func init() {
 	register(&Prop{ID: "C32", Level: "exploration", Variant: "A", Scenarios: c32Scenarios,
 		Run: func(c *explore.Check, thorough bool) {
-			c.Rule = "every entry of every Dict*ValueIndexed table that has a Dict*NameIndexed sibling (pairs discovered from dicttls/*.go at check time): NameIndexed[ValueIndexed[v]] == v; every corpus ClientHello (all IDs, custom specs, spliced variants) that the documented JSON format can describe is rendered to JSON with the value-indexed tables, imported with UnmarshalJSON, applied and built, and compared (normalised: GREASE, per-connection parts masked) with the hello built from the raw-bytes import; one caller-configured TLSExtensionsJSONUnmarshaler x 4 option sets x every sequence of <= 3 documents from a menu of 3 good and 3 refused ones: each step equals what a fresh unmarshaler with the same options makes of the document. distinct = table / hello"
+			c.Rule = "every entry of every Dict*ValueIndexed table that has a Dict*NameIndexed sibling (pairs discovered from dicttls/*.go at check time): NameIndexed[ValueIndexed[v]] == v; every corpus ClientHello (all IDs, custom specs, spliced variants) that the documented JSON format can describe is rendered to JSON with the value-indexed tables, imported with UnmarshalJSON, applied and built, and compared (normalised: GREASE, per-connection parts masked) with the hello built from the raw-bytes import, once with the registry spelling of every extension name and, for hellos carrying extension 34, once with its RFC 9345 spelling (pinned in the harness, not read from the table); one caller-configured TLSExtensionsJSONUnmarshaler x 4 option sets x every sequence of <= 3 documents from a menu of 3 good and 3 refused ones: each step equals what a fresh unmarshaler with the same options makes of the document. distinct = table / hello"
 			c.Assumptions = []string{"JSON renderer (mc/props/c32.go) written from the documented format; hellos with elements the format cannot describe (e.g. ECH GREASE) are counted as not representable, not judged"}
 			runAll(c, c32Scenarios(thorough), 0)
 			c.Gate(c.Total.Counters["dict_entries"] > 500, "non-vacuity: %d dict entries", c.Total.Counters["dict_entries"])
